@@ -70,18 +70,18 @@ def wrTo : List (Option Wr) → Nat → Option Wr
   | none :: ws, a => wrTo ws a
 
 /-- a row after an optional write to it -/
-def applyTo (g n : Nat) (old : Nat) : Option Wr → Nat
-  | some w => merge g n old w.data w.mask
+def applyTo (f : Nat → Wr → Nat) (old : Nat) : Option Wr → Nat
+  | some w => f old w
   | none => old
 
-theorem length_wr1 (g n : Nat) (m : Mem) (w : Wr) : (wr1 g n m w).length = m.length := by
+theorem length_wr1 (f : Nat → Wr → Nat) (m : Mem) (w : Wr) : (wr1 f m w).length = m.length := by
   unfold wr1; split <;> simp
 
-theorem length_wrOpt (g n : Nat) (m : Mem) (w : Option Wr) : (wrOpt g n m w).length = m.length := by
+theorem length_wrOpt (f : Nat → Wr → Nat) (m : Mem) (w : Option Wr) : (wrOpt f m w).length = m.length := by
   cases w <;> simp [wrOpt, length_wr1]
 
-theorem length_wrAll (g n : Nat) (m : Mem) (ws : List (Option Wr)) :
-    (wrAll g n m ws).length = m.length := by
+theorem length_wrAll (f : Nat → Wr → Nat) (m : Mem) (ws : List (Option Wr)) :
+    (wrAll f m ws).length = m.length := by
   induction ws generalizing m with
   | nil => rfl
   | cons w ws ih => simp only [wrAll, List.foldl_cons] at ih ⊢; rw [ih, length_wrOpt]
@@ -92,9 +92,9 @@ theorem rd_of_lt (m : Mem) (a : Nat) (h : a < m.length) : rd m a = m[a] := by
 theorem rd_of_ge (m : Mem) (a : Nat) (h : m.length ≤ a) : rd m a = 0 := by
   simp [rd, List.getElem?_eq_none h]
 
-theorem rd_wr1 (g n : Nat) (m : Mem) (w : Wr) (a : Nat) :
-    rd (wr1 g n m w) a =
-      if w.addr = a ∧ a < m.length then merge g n (rd m a) w.data w.mask else rd m a := by
+theorem rd_wr1 (f : Nat → Wr → Nat) (m : Mem) (w : Wr) (a : Nat) :
+    rd (wr1 f m w) a =
+      if w.addr = a ∧ a < m.length then f (rd m a) w else rd m a := by
   unfold wr1
   by_cases hl : w.addr < m.length
   · rw [List.getElem?_eq_getElem hl]
@@ -131,9 +131,9 @@ theorem wrTo_none_of_not_mem (ws : List (Option Wr)) (a : Nat) (h : a ∉ wrAddr
 
 /-- under "no two write ports address the same row", a row after the cycle's writes is the row
     with the one write addressed to it applied (out-of-range rows stay unreadable) -/
-theorem rd_wrAll (g n : Nat) (m : Mem) (ws : List (Option Wr)) (a : Nat)
+theorem rd_wrAll (f : Nat → Wr → Nat) (m : Mem) (ws : List (Option Wr)) (a : Nat)
     (hd : distinctRows ws = true) :
-    rd (wrAll g n m ws) a = if a < m.length then applyTo g n (rd m a) (wrTo ws a) else 0 := by
+    rd (wrAll f m ws) a = if a < m.length then applyTo f (rd m a) (wrTo ws a) else 0 := by
   induction ws generalizing m with
   | nil =>
     simp only [wrAll, List.foldl_nil, wrTo, applyTo]
